@@ -117,6 +117,9 @@ func readLine(reader *bufio.Reader) ([]byte, error) {
 	if !isPrefix {
 		return line, err
 	}
+	// line is a slice of the reader's internal buffer and is only valid until the next
+	// read: copy it before reading the rest of an over-long line
+	line = append([]byte(nil), line...)
 	for {
 		b, isPrefix, err := reader.ReadLine()
 		if err != nil {
